@@ -41,7 +41,8 @@ CONSTANTS
     \* ---- the semantic function ----
     DenoteLadder,  \* "ms": % is a comparison operator (as in the grammar); "ms-pctmul": % binds like * /
     \* ---- emission pools (harness) ----
-    AllCmpOps, AllLogSp, AtomIds, FuncIds, MaxWalkOps
+    AllCmpOps, RootCmpOps, AllLogSp, AtomIds, FuncIds, MaxWalkOps,
+    RootKindsS     \* shapes emitted in one run: those whose root kind is in this set
 
 VARIABLES tree, todo, stack, forest, ops, aux, phase
 vars == <<tree, todo, stack, forest, ops, aux, phase>>
@@ -276,7 +277,7 @@ Shapes == TreesUpTo(MaxOps, Unary \cup Binary, {0}, {0}, Shape0)
 
 \* every spelling of the operator at the root
 RootSp(s) ==
-    CASE s[1] = "CMP"            -> {[s EXCEPT ![2] = o] : o \in AllCmpOps}
+    CASE s[1] = "CMP"            -> {[s EXCEPT ![2] = o] : o \in RootCmpOps}
       [] s[1] \in {"OR", "AND", "NOT"} -> {[s EXCEPT ![2] = v] : v \in AllLogSp}
       [] OTHER -> {s}
 
@@ -297,7 +298,7 @@ Deco(t, keep, mode) ==
 
 \* aux: leaf mode (0 mixed leaves and every root spelling; 1 all leaves are function calls)
 SInit ==
-    /\ \E s \in Shapes :
+    /\ \E s \in {x \in Shapes : x[1] \in RootKindsS} :
          \/ (tree \in RootSp(s) /\ aux = 0)
          \/ (tree = s /\ aux = 1)
     /\ phase = "shape"
@@ -326,21 +327,21 @@ PushLeaf ==
     /\ forest' = Append(forest, Leaf(0))
     /\ UNCHANGED <<ops>>
 
+\* (a bound variable is evaluated once; a LET definition containing RandomElement is drawn again at every use)
 ApplyUnary ==
     /\ Len(forest) >= 1
     /\ aux - ops - 1 >= Len(forest) - 1
-    /\ LET k == UnaryPool[RandomElement(1..Len(UnaryPool))]
-           n == Len(forest)
-       IN  forest' = [forest EXCEPT ![n] = <<k, IF k = "NOT" THEN RandomElement(AllLogSp) ELSE 0, forest[n]>>]
+    /\ \E k \in {UnaryPool[RandomElement(1..Len(UnaryPool))]} :
+         \E a \in {IF k = "NOT" THEN RandomElement(AllLogSp) ELSE 0} :
+           LET n == Len(forest) IN forest' = [forest EXCEPT ![n] = <<k, a, forest[n]>>]
     /\ ops' = ops + 1
 
 ApplyBinary ==
     /\ Len(forest) >= 2
     /\ ops < aux
-    /\ LET k == BinPool[RandomElement(1..Len(BinPool))]
-           n == Len(forest)
-           a == IF k \in Logic THEN RandomElement(AllLogSp) ELSE IF k = "CMP" THEN RandomElement(AllCmpOps) ELSE 0
-       IN  forest' = Append(SubSeq(forest, 1, n - 2), <<k, a, forest[n - 1], forest[n]>>)
+    /\ \E k \in {BinPool[RandomElement(1..Len(BinPool))]} :
+         \E a \in {IF k \in Logic THEN RandomElement(AllLogSp) ELSE IF k = "CMP" THEN RandomElement(AllCmpOps) ELSE 0} :
+           LET n == Len(forest) IN forest' = Append(SubSeq(forest, 1, n - 2), <<k, a, forest[n - 1], forest[n]>>)
     /\ ops' = ops + 1
 
 FinishWalk ==
